@@ -164,6 +164,7 @@ class Obj:
         self.expression = Lin.of(expression)
         self.direction = direction
         self.name = name if name is not None else "obj"
+        self.value = None
 
     def set_linear_coefficients(self, coefs):
         t = dict(self.expression.terms)
@@ -375,6 +376,10 @@ class ModelLP:
         if isinstance(value, RxnLP):
             self.solver.objective = Obj(value.flux_expression, self.solver.objective.direction, name="given_objective")
             return
+        if isinstance(value, (Lin, Var)):
+            # a bare expression becomes problem.Objective(expression): optlang's default direction is "max"
+            self.solver.objective = Obj(Lin.of(value), "max", name="expression_objective")
+            return
         raise Unsupported(f"model.objective = {value!r}")
 
     @property
@@ -431,6 +436,7 @@ class ModelLP:
             v = self._values.pop(0)
             self.solver.status = "optimal"
         self.solves.append((f, v))
+        self.solver.objective.value = v if self.solver.status == "optimal" else None
         return f, v
 
     def slim_optimize(self, error_value=float("nan"), message=None):
